@@ -122,6 +122,22 @@ func c11Run(c *runner.Ctx) {
 		}
 		c.Inc("files.segment."+sg.Kind, 1)
 		b = pb
+		// history: a WriteTo that failed part-way (writer error at a random offset) followed by a retry on a healthy writer
+		if len(pb) > 0 {
+			fw := &failWriter{at: c.R.Intn(len(pb))}
+			if _, err := sg.S.WriteTo(fw, nil); err != nil {
+				rb, rn, rerr := gen.Persist(sg.S)
+				if rerr != nil {
+					c.Violate("retry-error:"+sg.Kind, "WriteTo after a failed WriteTo failed on a healthy writer: "+firstLine(rerr.Error()), desc())
+				} else if c11CheckFile(c, "Segment.WriteTo("+sg.Kind+") retried after a failed write", rb, rn, desc) {
+					if !bytes.Equal(rb, pb) {
+						c.Violate("retry-differs:"+sg.Kind, "WriteTo after a failed WriteTo produced a different file than before ("+diffAt(pb, rb)+")", desc())
+					} else {
+						c.Inc("retries_after_failed_write_identical", 1)
+					}
+				}
+			}
+		}
 		if sg.Bytes != nil && !bytes.Equal(sg.Bytes, pb) {
 			c.Violate("repersist:"+sg.Kind, fmt.Sprintf("persisting a %s segment again does not reproduce the file it was loaded from (%s)", sg.Kind, diffAt(sg.Bytes, pb)), desc())
 			continue
